@@ -51,6 +51,8 @@ def cases(tier, seed):
     scales = SCALES if tier == "quick" else [1.0, 3.0, 10.0, 30.0, 60.0]
     for proj, crval, sc in itertools.product(PROJ, CRVALS, scales):
         yield "conversions", dict(proj=proj, crval=list(crval), scale=sc)
+    for proj, crval, sc in itertools.product(PROJ, CRVALS[:2], [10.0]):
+        yield "argtypes", dict(proj=proj, crval=list(crval), scale=sc)
     for first in range(len(LIVE)):
         for upfront in (0, 1):
             yield "interleaved", dict(first=first, upfront=upfront)
@@ -58,6 +60,68 @@ def cases(tier, seed):
 
 LIVE = [("SIN", (30.0, -15.0), 10.0, None), ("TAN", (30.0, -15.0), 30.0, (40.5, 160.25)), ("ZEA", (30.0, -15.0), 5.0, (120.0, 33.0)),
         ("SIN", (30.2, -14.9), 10.0, None), ("STG", (359.98, 72.0), 20.0, (10.0, 250.0))]
+
+
+def ev_argtypes(case, ctx):
+    """integer-valued positions / lengths handed over as Python ints, lists, integer and float arrays: the same numbers
+    must give the same answers whatever their type, and the caller's arrays must not be changed"""
+    proj, crval, sc = case["proj"], tuple(case["crval"]), case["scale"]
+    cd = sc / 3600.0
+    hdr = wz.make_header(proj, crval, cd, SHAPE, beam=(3 * cd, 2 * cd, 20.0))
+    wcs = WCSHelper.from_header(wz.to_fits_header(hdr))
+    tag = "%s,crval=%r,scale=%g" % (proj, crval, sc)
+    flav = dict(tuple_float=lambda x, y: (float(x), float(y)), tuple_int=lambda x, y: (int(x), int(y)), list_int=lambda x, y: [int(x), int(y)],
+                array_int64=lambda x, y: np.array([x, y], dtype=np.int64), array_int32=lambda x, y: np.array([x, y], dtype=np.int32),
+                array_float64=lambda x, y: np.array([x, y], dtype=np.float64))
+    for (x, y) in [(100, 150), (1, 1), (37, 211)]:
+        ra0, dec0 = wcs.pix2sky([float(x), float(y)])
+        calls = [("pix2sky", lambda p_: wcs.pix2sky(p_))]
+        for r_, th_ in ((1, 45), (5, 30), (2, -120), (7, 90)):
+            calls.append(("pix2sky_vec(r=%d,theta=%d)" % (r_, th_), lambda p_, r_=r_, th_=th_: wcs.pix2sky_vec(p_, r_, th_)))
+            calls.append(("pix2sky_ellipse(%d,%d,%d)" % (r_ + 1, r_, th_), lambda p_, r_=r_, th_=th_: wcs.pix2sky_ellipse(p_, r_ + 1, r_, th_)))
+        calls.append(("sky_sep", lambda p_: wcs.sky_sep(p_, (float(x) + 3, float(y) - 4))))
+        for name, fn in calls:
+            ref = None
+            for fname, mk in flav.items():
+                ctx.count("argtype_call")
+                sig = "argtypes:%s,pix=%r,%s,%s" % (tag, (x, y), name, fname)
+                ctx.nontrivial(sig)
+                arg = mk(x, y)
+                before = np.array(arg, copy=True) if isinstance(arg, np.ndarray) else list(arg)
+                try:
+                    got = np.atleast_1d(np.asarray(fn(arg), dtype=float))
+                except Exception as e:
+                    ctx.violation("%s with the pixel given as %s raised %r (%s)" % (name, fname, e, sig), "argtype_raise|" + sig)
+                    continue
+                if not np.array_equal(np.asarray(arg), np.asarray(before)):
+                    ctx.violation("%s changed the caller's pixel argument (%s)" % (name, sig), "argtype_mutated|" + sig)
+                if ref is None:
+                    ref = got
+                    continue
+                if got.shape != ref.shape or not np.allclose(got, ref, rtol=1e-12, atol=1e-13):
+                    ctx.violation("%s at pixel (%d, %d) gives %r when the pixel is a %s and %r when it is a tuple of floats (%s)" % (
+                        name, x, y, [float(v) for v in got], fname, [float(v) for v in ref], tag), "argtype_differs|" + sig)
+        # sky positions: tuple / list / array
+        for name, fn in [("sky2pix", lambda p_: wcs.sky2pix(p_)), ("sky2pix_vec", lambda p_: wcs.sky2pix_vec(p_, 5 * cd, 30.0)),
+                         ("sky2pix_ellipse", lambda p_: wcs.sky2pix_ellipse(p_, 5 * cd, 3 * cd, 30.0))]:
+            ref = None
+            for fname, arg in (("tuple", (float(ra0), float(dec0))), ("list", [float(ra0), float(dec0)]), ("array", np.array([ra0, dec0], dtype=np.float64))):
+                ctx.count("argtype_call")
+                sig = "argtypes:%s,pix=%r,%s,%s" % (tag, (x, y), name, fname)
+                before = np.array(arg, copy=True)
+                try:
+                    got = np.atleast_1d(np.asarray(fn(arg), dtype=float))
+                except Exception as e:
+                    ctx.violation("%s with the position given as %s raised %r (%s)" % (name, fname, e, sig), "argtype_raise|" + sig)
+                    continue
+                if not np.array_equal(np.asarray(arg), before):
+                    ctx.violation("%s changed the caller's position argument (%s)" % (name, sig), "argtype_mutated|" + sig)
+                if ref is None:
+                    ref = got
+                elif not np.allclose(got, ref, rtol=1e-12, atol=1e-13):
+                    ctx.violation("%s gives %r for a %s and %r for a tuple (%s)" % (name, [float(v) for v in got], fname, [float(v) for v in ref], sig),
+                                  "argtype_differs|" + sig)
+    ctx.outcome("argtypes")
 
 
 def ev_interleaved(case, ctx):
@@ -247,4 +311,4 @@ def ev_conversions(case, ctx):
 
 
 def evaluate(clause, case, ctx):
-    (ev_interleaved if clause == "interleaved" else ev_conversions)(case, ctx)
+    dict(interleaved=ev_interleaved, argtypes=ev_argtypes).get(clause, ev_conversions)(case, ctx)
